@@ -798,6 +798,93 @@ pub fn run(tier: Tier) -> i32 {
     }
     rep.stats.count("shape_cases", jobs.len() as u64);
 
+    // (4b) long multi-byte payloads at every node position. Error values quote the offending
+    // YAML; anything that shortens, pads or slices such text by a byte count meets a character
+    // boundary only for some alignments, so every payload comes with 0-3 ASCII characters in
+    // front of a run of 2-, 3- or 4-byte characters (all residues of any cut position), in
+    // lengths on both sides of 256 / 1024 / 4096 bytes, as a scalar, inside sequences, as a key
+    // and next to a non-string key.
+    {
+        let lens: &[usize] = if th { &[60, 100, 130, 200, 260, 300, 520, 600, 1030, 1100, 2100, 4100, 4200] } else { &[100, 130, 260, 520, 1100, 4200] };
+        let mut payloads: Vec<String> = vec![];
+        for c in ['é', '€', '😀', 'a'] {
+            for pad in 0..4usize {
+                for &l in lens {
+                    let mut p = "x".repeat(pad);
+                    while p.len() < l {
+                        p.push(c);
+                    }
+                    payloads.push(p);
+                }
+            }
+        }
+        let mk: Vec<(&str, fn(&str) -> Y)> = vec![
+            ("scalar", |p| Y::String(p.to_string())),
+            ("[P]", |p| Y::Sequence(vec![Y::String(p.to_string())])),
+            ("[P, {f: x}]", |p| Y::Sequence(vec![Y::String(p.to_string()), serde_yaml::from_str("{f: x}").unwrap()])),
+            ("[[P]]", |p| Y::Sequence(vec![Y::Sequence(vec![Y::String(p.to_string())])])),
+            ("{P: x}", |p| {
+                let mut m = serde_yaml::Mapping::new();
+                m.insert(Y::String(p.to_string()), Y::String("x".into()));
+                Y::Mapping(m)
+            }),
+            ("{1: P}", |p| {
+                let mut m = serde_yaml::Mapping::new();
+                m.insert(Y::Number(1.into()), Y::String(p.to_string()));
+                Y::Mapping(m)
+            }),
+            ("{f: P, 1.5: [P]}", |p| {
+                let mut m = serde_yaml::Mapping::new();
+                m.insert(Y::String("f".into()), Y::String(p.to_string()));
+                m.insert(Y::Number(1.5.into()), Y::Sequence(vec![Y::String(p.to_string())]));
+                Y::Mapping(m)
+            }),
+        ];
+        let mut jobs: Vec<(usize, usize, usize)> = vec![];
+        for p in 0..pos.len() {
+            for k in 0..mk.len() {
+                for q in 0..payloads.len() {
+                    jobs.push((p, k, q));
+                }
+            }
+        }
+        let parts: Vec<Stats> = jobs
+            .par_chunks(256)
+            .map(|chunk| {
+                let mut st = Stats::default();
+                for &(p, k, q) in chunk {
+                    let mut v = skel.clone();
+                    replace_at(&mut v, &pos[p], &(mk[k].1)(&payloads[q]));
+                    st.states += 1;
+                    st.evaluations += 1;
+                    st.transitions += 2;
+                    let text = serde_yaml::to_string(&v).unwrap_or_default();
+                    let a = load_value(v);
+                    let t2 = text.clone();
+                    let b = catch(move || Rule::from_str(&t2).is_ok());
+                    if matches!(a, Ok(true)) {
+                        st.count("long_payload_rules_accepted", 1);
+                    }
+                    for (layer, r) in [("from_value", a), ("from_str", b)] {
+                        if let Err(msg) = r {
+                            let first = payloads[q].chars().rev().next().unwrap_or('a');
+                            st.push_violation(Violation {
+                                signature: sig_of_panic(&format!("load-long-payload-{}", layer), &msg),
+                                witness: format!("{} with {}:={} where P is {} bytes ending in {:?} panics: {}", layer, pos[p].join("/"), mk[k].0, payloads[q].len(), first, msg.chars().take(200).collect::<String>()),
+                                replay: json!({"kind":"load","rule_yaml":text}),
+                            });
+                        }
+                    }
+                }
+                st
+            })
+            .collect();
+        for p in parts {
+            rep.stats.merge(p);
+        }
+        rep.stats.count("long_payload_cases", jobs.len() as u64);
+    }
+
     // (5) nesting depth 64, in a child process on threads with the default stack size
     let exe = std::env::current_exe().unwrap();
     for (name, yaml) in depth_cases() {
